@@ -739,3 +739,529 @@ Proof.
   intros H K cf0 cf1 bc0 bc1 tops b. unfold sys_trace, betrace.
   rewrite (loops_isolated_from H K cf0 cf1 bc0 bc1 tops ([], brk0) ([], brk0) b). destruct b; reflexivity.
 Qed.
+
+(* ---------------------------------------------------------------------- *)
+(* overlapping requests on one loop object                                  *)
+
+Section OverlapProofs.
+  Variable H : str -> str.
+  Variable K : str -> str.
+  Variable cf : config.
+  Variable bc : bconfig.
+
+  (* a request carried out in one go is its two halves at one clock value *)
+  Lemma bstep_split :
+    forall s q,
+      bstep H K cf bc s q =
+      let '(s1, r) := enter K cf bc s (q_prompt q) (q_time q) in
+      match r with
+      | ERejected => (s1, rejected_reply (length (fst s1)), false)
+      | EHit res => (s1, hit_reply res (length (fst s1)), true)
+      | EMiss => let '(s2, rp) := leave H K cf bc s1 q (q_time q) in (s2, rp, true)
+      end.
+  Proof.
+    intros [c b] q. unfold bstep, enter, leave, step.
+    destruct (if bc_enabled bc then check_circuit bc (q_time q) b else (true, b)) as [ok b1].
+    destruct ok; [|reflexivity].
+    destruct (if cf_cache cf then check_cache cf (q_time q) (K (q_prompt q)) c else (None, c)) as [hit c1].
+    destruct hit as [res|]; reflexivity.
+  Qed.
+
+  (* histories without overlap are the sequential histories of the theorems above *)
+  Lemma xtrace_atomic_from :
+    forall ops s pend,
+      xtrace_from H K cf bc (s, pend) (map XAtomic ops) = map EvAtomic (betrace_from H K cf bc s ops).
+  Proof.
+    induction ops as [|o rest IH]; intros s pend; [reflexivity|].
+    cbn [map xtrace_from xstep betrace_from].
+    destruct (bstep_op H K cf bc s o) as [s' e]. cbn [map]. rewrite IH. reflexivity.
+  Qed.
+
+  Lemma overlap_atomic_is_sequential_proof :
+    forall ops, xtrace H K cf bc (map XAtomic ops) = map EvAtomic (betrace H K cf bc ops).
+  Proof. intros ops. apply xtrace_atomic_from. Qed.
+
+  (* begin followed at once by end, at one clock value, is the request in one go *)
+  Lemma begin_end_is_request_proof :
+    forall s pend id q s' rp adm,
+      bstep H K cf bc s q = (s', rp, adm) ->
+      (r_exec_called rp = false /\
+       xstep H K cf bc (s, pend) (XBegin id q) = ((s', pend), EvReturned id q rp adm)) \/
+      (r_exec_called rp = true /\ adm = true /\
+       exists s1 n,
+         xstep H K cf bc (s, pend) (XBegin id q) = ((s1, (id, q) :: pend), EvInFlight id q n) /\
+         xstep H K cf bc (s1, (id, q) :: pend) (XEnd id (q_time q)) =
+           ((s', pend), EvCompleted id q (q_time q) rp)).
+  Proof.
+    intros s pend id q s' rp adm Hb. rewrite bstep_split in Hb.
+    cbn [xstep].
+    destruct (enter K cf bc s (q_prompt q) (q_time q)) as [s1 r] eqn:Ee.
+    destruct r as [|res|].
+    - inversion Hb; subst. left. split; reflexivity.
+    - inversion Hb; subst. left. split; reflexivity.
+    - destruct (leave H K cf bc s1 q (q_time q)) as [s2 rp2] eqn:El.
+      inversion Hb; subst. right.
+      assert (Hx : r_exec_called rp = true).
+      { destruct s1 as [c1 b1]. unfold leave in El. inversion El; subst. reflexivity. }
+      split; [exact Hx|]. split; [reflexivity|].
+      exists s1, (length (fst s1)). split; [reflexivity|].
+      cbn [xstep pending_find pending_remove]. rewrite Z.eqb_refl. rewrite El. reflexivity.
+  Qed.
+
+  (* ---- what the two halves do to the cache ---- *)
+
+  Lemma enter_spec :
+    forall c b p now c1 b1 r,
+      enter K cf bc (c, b) p now = ((c1, b1), r) ->
+      (forall e, In e c1 -> In e c) /\
+      (forall res, r = EHit res ->
+         exists ts, In (K p, (res, ts)) c /\ now - ts < cf_ttl cf /\ cf_cache cf = true).
+  Proof.
+    intros c b p now c1 b1 r He. unfold enter in He.
+    destruct (if bc_enabled bc then check_circuit bc now b else (true, b)) as [ok b'].
+    destruct ok.
+    - destruct (cf_cache cf) eqn:Ec.
+      + unfold check_cache in He.
+        destruct (lookup (K p) c) as [[res ts]|] eqn:El.
+        * destruct (now - ts <? cf_ttl cf) eqn:Et.
+          -- inversion He; subst. split; [auto|].
+             intros res' E. inversion E; subst. exists ts.
+             split; [apply lookup_In; exact El|]. split; [apply Z.ltb_lt; exact Et | reflexivity].
+          -- inversion He; subst. split; [intros e; apply In_remove | intros res' E; discriminate].
+        * inversion He; subst. split; [auto | intros res' E; discriminate].
+      + inversion He; subst. split; [auto | intros res' E; discriminate].
+    - inversion He; subst. split; [auto | intros res' E; discriminate].
+  Qed.
+
+  (* the reply of a request that went to the agents: computed from ITS prompt and ITS agents' answers *)
+  Definition xfresh (q : req) (rp : reply) : Prop :=
+    r_cached rp = false /\ r_core rp = outcome H cf q /\ r_exec_called rp = true /\
+    r_assess_called rp = negb (raised (q_exec q)) /\ r_shown rp = Some (q_prompt q).
+
+  Lemma leave_spec :
+    forall c b q now c2 b2 rp,
+      leave H K cf bc (c, b) q now = ((c2, b2), rp) ->
+      xfresh q rp /\
+      (forall e, In e c2 -> e = (K (q_prompt q), (outcome H cf q, now)) \/ In e c).
+  Proof.
+    intros c b q now c2 b2 rp Hl. unfold leave in Hl. inversion Hl; subst; clear Hl.
+    split; [unfold xfresh; cbn; auto 6|].
+    intros e He.
+    destruct (cf_cache cf && negb (raised (q_exec q) || raised (q_assess q))).
+    - apply In_evict in He. apply In_set_entry in He. exact He.
+    - right; exact He.
+  Qed.
+
+  (* ---- every reply of an overlapping history ---- *)
+
+  (* a cache entry was stored by a request of the history that went to the agents, holds that
+     request's own reply, and is stamped with the clock value at which that reply was produced *)
+  Definition xentry_ok (tr : list xev) (e : entry) : Prop :=
+    exists j ej qj rj,
+      nth_error tr j = Some ej /\ xreply ej = Some (qj, rj) /\ xdone_at ej = Some (snd (snd e)) /\
+      xfresh qj rj /\ K (q_prompt qj) = fst e /\ r_core rj = fst (snd e).
+
+  Definition XInv (tr : list xev) (c : cache) : Prop := forall e, In e c -> xentry_ok tr e.
+
+  (* reply [rp] to request [q] at position [i]: the breaker's rejection, or the request's own
+     gate outcome, or the reply of an EARLIER COMPLETED request with the same key that went to
+     the agents (its own gate outcome), served within the TTL of the moment that reply was produced *)
+  Definition xjustified (tr : list xev) (i : nat) (q : req) (rp : reply) : Prop :=
+    (exists n, rp = rejected_reply n) \/
+    xfresh q rp \/
+    (r_cached rp = true /\
+     exists j ej qj rj tj,
+       (j < i)%nat /\ nth_error tr j = Some ej /\ xreply ej = Some (qj, rj) /\ xdone_at ej = Some tj /\
+       xfresh qj rj /\ K (q_prompt qj) = K (q_prompt q) /\ r_core rp = r_core rj /\
+       q_time q - tj < cf_ttl cf /\ cf_cache cf = true /\
+       r_exec_called rp = false /\ r_assess_called rp = false /\ r_shown rp = None).
+
+  Lemma xentry_ok_app : forall tr l e, xentry_ok tr e -> xentry_ok (tr ++ l) e.
+  Proof.
+    intros tr l e (j & ej & qj & rj & Hn & rest).
+    exists j, ej, qj, rj. split; [|exact rest].
+    rewrite nth_error_app1; [exact Hn|]. apply nth_error_Some. congruence.
+  Qed.
+
+  Lemma XInv_app : forall tr l c, XInv tr c -> XInv (tr ++ l) c.
+  Proof. intros tr l c HI e He. apply xentry_ok_app, HI, He. Qed.
+
+  Lemma XInv_sub : forall tr c c', XInv tr c -> (forall e, In e c' -> In e c) -> XInv tr c'.
+  Proof. intros tr c c' HI Hs e He. apply HI, Hs, He. Qed.
+
+  (* a hit found by [enter] is justified by the invariant *)
+  Lemma hit_justified :
+    forall tr tl c q res n ehit,
+      XInv tr c ->
+      (exists ts, In (K (q_prompt q), (res, ts)) c /\ q_time q - ts < cf_ttl cf /\ cf_cache cf = true) ->
+      xjustified (tr ++ ehit :: tl) (length tr) q (hit_reply res n).
+  Proof.
+    intros tr tl c q res n ehit HI (ts & Hin & Ht & Hc).
+    right; right. split; [reflexivity|].
+    destruct (HI _ Hin) as (j & ej & qj & rj & Hn & Hr & Hd & Hf & Hk & Hcore).
+    cbn [fst snd] in *.
+    assert (Hj : (j < length tr)%nat) by (apply nth_error_Some; congruence).
+    exists j, ej, qj, rj, ts.
+    split; [exact Hj|]. split; [rewrite nth_error_app1 by exact Hj; exact Hn|].
+    split; [exact Hr|]. split; [exact Hd|]. split; [exact Hf|]. split; [exact Hk|].
+    split; [cbn; symmetry; exact Hcore|]. split; [exact Ht|]. split; [exact Hc|].
+    cbn. auto.
+  Qed.
+
+  (* a reply produced by [leave] and the cache it leaves behind *)
+  Lemma leave_ok :
+    forall tr c b q now c2 b2 rp e,
+      XInv tr c -> leave H K cf bc (c, b) q now = ((c2, b2), rp) ->
+      xreply e = Some (q, rp) -> xdone_at e = Some now ->
+      xfresh q rp /\ XInv (tr ++ [e]) c2.
+  Proof.
+    intros tr c b q now c2 b2 rp e HI Hl Hr Hd.
+    destruct (leave_spec c b q now c2 b2 rp Hl) as [Hf Hc].
+    split; [exact Hf|].
+    intros x Hx. destruct (Hc x Hx) as [-> | Hin].
+    - exists (length tr), e, q, rp.
+      split; [apply nth_error_here|]. split; [exact Hr|]. split; [exact Hd|].
+      split; [exact Hf|]. split; [reflexivity|]. destruct Hf as (_ & Hcore & _). exact Hcore.
+    - apply xentry_ok_app, HI, Hin.
+  Qed.
+
+  Lemma xstep_ok :
+    forall tr s pend o s' pend' e,
+      XInv tr (fst s) -> xstep H K cf bc (s, pend) o = ((s', pend'), e) ->
+      (forall q rp tl, xreply e = Some (q, rp) -> xjustified (tr ++ e :: tl) (length tr) q rp) /\
+      XInv (tr ++ [e]) (fst s').
+  Proof.
+    intros tr [c b] pend o s' pend' e HI Hs. cbn [fst] in HI.
+    destruct o as [a | id q | id now]; cbn [xstep] in Hs.
+    - (* an operation in one go *)
+      destruct a as [q| | |]; cbn [bstep_op] in Hs.
+      + rewrite bstep_split in Hs.
+        destruct (enter K cf bc (c, b) (q_prompt q) (q_time q)) as [[c1 b1] r] eqn:Ee.
+        destruct (enter_spec _ _ _ _ _ _ _ Ee) as [Hsub Hhit].
+        destruct r as [|res|].
+        * inversion Hs; subst; clear Hs. cbn [fst]. split.
+          -- intros q' rp' tl Hr. cbn in Hr. inversion Hr; subst. left. eexists; reflexivity.
+          -- apply XInv_app. eapply XInv_sub; eassumption.
+        * inversion Hs; subst; clear Hs. cbn [fst]. split.
+          -- intros q' rp' tl Hr. cbn in Hr. inversion Hr; subst.
+             eapply hit_justified; [exact HI | apply Hhit; reflexivity].
+          -- apply XInv_app. eapply XInv_sub; eassumption.
+        * destruct (leave H K cf bc (c1, b1) q (q_time q)) as [[c2 b2] rp] eqn:El.
+          inversion Hs; subst; clear Hs. cbn [fst].
+          assert (HI1 : XInv tr c1) by (eapply XInv_sub; eassumption).
+          destruct (leave_ok tr c1 b1 q (q_time q) c2 b2 rp
+                      (EvAtomic (OReq q, Some rp, length c2, true)) HI1 El eq_refl eq_refl) as [Hf HI2].
+          split; [|exact HI2].
+          intros q' rp' tl Hr. cbn in Hr. inversion Hr; subst. right; left. exact Hf.
+      + inversion Hs; subst; clear Hs. cbn [fst]. split; [intros q rp tl Hr; discriminate | intros x []].
+      + inversion Hs; subst; clear Hs. cbn [fst]. split; [intros q rp tl Hr; discriminate | apply XInv_app, HI].
+      + inversion Hs; subst; clear Hs. cbn [fst]. split; [intros q rp tl Hr; discriminate | apply XInv_app, HI].
+    - (* first half *)
+      destruct (enter K cf bc (c, b) (q_prompt q) (q_time q)) as [[c1 b1] r] eqn:Ee.
+      destruct (enter_spec _ _ _ _ _ _ _ Ee) as [Hsub Hhit].
+      destruct r as [|res|]; inversion Hs; subst; clear Hs; cbn [fst]; split.
+      + intros q' rp' tl Hr. cbn in Hr. inversion Hr; subst. left. eexists; reflexivity.
+      + apply XInv_app. eapply XInv_sub; eassumption.
+      + intros q' rp' tl Hr. cbn in Hr. inversion Hr; subst.
+        eapply hit_justified; [exact HI | apply Hhit; reflexivity].
+      + apply XInv_app. eapply XInv_sub; eassumption.
+      + intros q' rp' tl Hr. discriminate.
+      + apply XInv_app. eapply XInv_sub; eassumption.
+    - (* second half *)
+      destruct (pending_find id pend) as [q|].
+      + destruct (leave H K cf bc (c, b) q now) as [[c2 b2] rp] eqn:El.
+        inversion Hs; subst; clear Hs. cbn [fst].
+        destruct (leave_ok tr c b q now c2 b2 rp (EvCompleted id q now rp) HI El eq_refl eq_refl) as [Hf HI2].
+        split; [|exact HI2].
+        intros q' rp' tl Hr. cbn in Hr. inversion Hr; subst. right; left. exact Hf.
+      + inversion Hs; subst; clear Hs. cbn [fst].
+        split; [intros q rp tl Hr; discriminate | apply XInv_app, HI].
+  Qed.
+
+  Lemma xtrace_from_justified :
+    forall ops tr s pend, XInv tr (fst s) ->
+      forall i e q rp, nth_error (xtrace_from H K cf bc (s, pend) ops) i = Some e -> xreply e = Some (q, rp) ->
+        xjustified (tr ++ xtrace_from H K cf bc (s, pend) ops) (length tr + i) q rp.
+  Proof.
+    induction ops as [|o rest IH]; intros tr s pend HI i e q rp Hn Hr.
+    - destruct i; discriminate.
+    - cbn [xtrace_from] in *.
+      destruct (xstep H K cf bc (s, pend) o) as [[s' pend'] e0] eqn:Hs.
+      destruct (xstep_ok tr s pend o s' pend' e0 HI Hs) as [Hj HI'].
+      destruct i as [|i].
+      + cbn in Hn. inversion Hn; subst e0. rewrite Nat.add_0_r. apply Hj. exact Hr.
+      + cbn [nth_error] in Hn.
+        pose proof (IH (tr ++ [e0]) s' pend' HI' i e q rp Hn Hr) as J.
+        rewrite <- app_assoc in J. cbn [app] in J.
+        rewrite app_length in J. cbn [length] in J.
+        replace (length tr + 1 + i)%nat with (length tr + S i)%nat in J by lia. exact J.
+  Qed.
+
+  Lemma overlap_justified_proof :
+    forall ops i e q rp,
+      nth_error (xtrace H K cf bc ops) i = Some e -> xreply e = Some (q, rp) ->
+      xjustified (xtrace H K cf bc ops) i q rp.
+  Proof.
+    intros ops i e q rp Hn Hr.
+    exact (xtrace_from_justified ops [] ([], brk0) [] (fun x (F : In x []) => match F with end) i e q rp Hn Hr).
+  Qed.
+
+  (* ---- whose request a reply answers ---- *)
+
+  Definition PInv (pre : list xop) (pend : pending) : Prop :=
+    forall id q, In (id, q) pend -> In (XBegin id q) pre.
+
+  Lemma pending_find_In : forall id pend q, pending_find id pend = Some q -> In (id, q) pend.
+  Proof.
+    induction pend as [|[i q0] r IH]; cbn; intros q E; [discriminate|].
+    destruct (Z.eqb i id) eqn:Ei.
+    - apply Z.eqb_eq in Ei. inversion E; subst. left; reflexivity.
+    - right; apply IH; exact E.
+  Qed.
+
+  Lemma In_pending_remove : forall id x pend, In x (pending_remove id pend) -> In x pend.
+  Proof.
+    induction pend as [|[i q0] r IH]; cbn; intros E; [exact E|].
+    destruct (Z.eqb i id).
+    - right; exact E.
+    - destruct E as [E|E]; [left; exact E | right; apply IH; exact E].
+  Qed.
+
+  (* where the request of a reply at position [i] comes from: the operation at position [i]
+     itself, or - for a request that was in flight - the begin with its id, EARLIER in the history *)
+  Definition xorigin (all : list xop) (i : nat) (ops : list xop) (pre : list xop) (e : xev) (q : req) : Prop :=
+    nth_error ops i = Some (XAtomic (OReq q)) \/
+    (exists id, nth_error ops i = Some (XBegin id q)) \/
+    (exists id now rp, e = EvCompleted id q now rp /\ nth_error ops i = Some (XEnd id now) /\
+                       In (XBegin id q) (pre ++ firstn i ops)).
+
+  Lemma xtrace_from_origin :
+    forall ops pre s pend, PInv pre pend ->
+      forall i e q rp, nth_error (xtrace_from H K cf bc (s, pend) ops) i = Some e -> xreply e = Some (q, rp) ->
+        xorigin (pre ++ ops) i ops pre e q.
+  Proof.
+    induction ops as [|o rest IH]; intros pre s pend HP i e q rp Hn Hr.
+    - destruct i; discriminate.
+    - cbn [xtrace_from] in Hn.
+      destruct (xstep H K cf bc (s, pend) o) as [[s' pend'] e0] eqn:Hs.
+      destruct i as [|i].
+      + cbn in Hn. inversion Hn; subst e0; clear Hn. unfold xorigin. cbn [nth_error firstn].
+        destruct o as [a | id q0 | id now]; cbn [xstep] in Hs.
+        * destruct (bstep_op H K cf bc s a) as [s1 e1] eqn:Eb. inversion Hs; subst; clear Hs.
+          destruct a as [q0| | |]; cbn [bstep_op] in Eb.
+          -- destruct (bstep H K cf bc s q0) as [[s2 rp2] adm]. inversion Eb; subst.
+             cbn in Hr. inversion Hr; subst. left; reflexivity.
+          -- inversion Eb; subst. discriminate Hr.
+          -- inversion Eb; subst. discriminate Hr.
+          -- inversion Eb; subst. discriminate Hr.
+        * destruct (enter K cf bc s (q_prompt q0) (q_time q0)) as [s1 r].
+          destruct r; inversion Hs; subst; clear Hs; cbn in Hr; try discriminate;
+            inversion Hr; subst; right; left; exists id; reflexivity.
+        * destruct (pending_find id pend) as [q0|] eqn:Ef.
+          -- destruct (leave H K cf bc s q0 now) as [s2 rp2]. inversion Hs; subst; clear Hs.
+             cbn in Hr. inversion Hr; subst. right; right. exists id, now, rp.
+             split; [reflexivity|]. split; [reflexivity|].
+             rewrite app_nil_r. apply HP. apply pending_find_In. exact Ef.
+          -- inversion Hs; subst. discriminate Hr.
+      + cbn [nth_error] in Hn.
+        assert (HP' : PInv (pre ++ [o]) pend').
+        { destruct o as [a | id q0 | id now]; cbn [xstep] in Hs.
+          - destruct (bstep_op H K cf bc s a) as [s1 e1]. inversion Hs; subst.
+            intros id q1 Hi. apply in_or_app; left. apply HP; exact Hi.
+          - destruct (enter K cf bc s (q_prompt q0) (q_time q0)) as [s1 r].
+            destruct r; inversion Hs; subst; intros id1 q1 Hi.
+            + apply in_or_app; left. apply HP; exact Hi.
+            + apply in_or_app; left. apply HP; exact Hi.
+            + destruct Hi as [Hi|Hi].
+              * inversion Hi; subst. apply in_or_app; right; left; reflexivity.
+              * apply in_or_app; left. apply HP; exact Hi.
+          - destruct (pending_find id pend) as [q0|].
+            + destruct (leave H K cf bc s q0 now) as [s2 rp2]. inversion Hs; subst.
+              intros id1 q1 Hi. apply in_or_app; left. apply HP. eapply In_pending_remove; exact Hi.
+            + inversion Hs; subst. intros id1 q1 Hi. apply in_or_app; left. apply HP; exact Hi. }
+        pose proof (IH (pre ++ [o]) s' pend' HP' i e q rp Hn Hr) as J.
+        unfold xorigin in *. cbn [nth_error firstn].
+        destruct J as [J | [J | (id & now & rp' & J1 & J2 & J3)]]; [left; exact J | right; left; exact J |].
+        right; right. exists id, now, rp'. split; [exact J1|]. split; [exact J2|].
+        rewrite <- app_assoc in J3. exact J3.
+  Qed.
+
+  (* the requests of an overlapping history *)
+  Definition xreq_in (ops : list xop) (q : req) : Prop :=
+    In (XAtomic (OReq q)) ops \/ exists id, In (XBegin id q) ops.
+
+  Lemma In_firstn : forall (A : Type) n (l : list A) x, In x (firstn n l) -> In x l.
+  Proof.
+    intros A n. induction n as [|n IH]; intros l x Hi; [destruct Hi|].
+    destruct l as [|y l]; [destruct Hi|]. destruct Hi as [->|Hi]; [left; reflexivity | right; apply IH; exact Hi].
+  Qed.
+
+  Lemma xreply_req_in :
+    forall ops i e q rp,
+      nth_error (xtrace H K cf bc ops) i = Some e -> xreply e = Some (q, rp) -> xreq_in ops q.
+  Proof.
+    intros ops i e q rp Hn Hr.
+    destruct (xtrace_from_origin ops [] ([], brk0) [] (fun id q (F : In (id, q) []) => match F with end)
+                                 i e q rp Hn Hr) as [J | [(id & J) | (id & now & rp' & _ & _ & J)]].
+    - left. eapply nth_error_In; exact J.
+    - right. exists id. eapply nth_error_In; exact J.
+    - right. exists id. cbn [app] in J. eapply In_firstn; exact J.
+  Qed.
+
+  Lemma xtrace_from_nth_op :
+    forall ops x i e, nth_error (xtrace_from H K cf bc x ops) i = Some e ->
+      exists x' o, nth_error ops i = Some o /\ e = snd (xstep H K cf bc x' o).
+  Proof.
+    induction ops as [|o rest IH]; intros x i e Hn; [destruct i; discriminate|].
+    cbn [xtrace_from] in Hn. destruct (xstep H K cf bc x o) as [x1 e0] eqn:Hs.
+    destruct i as [|i].
+    - cbn in Hn. injection Hn as <-. exists x, o. split; [reflexivity|]. rewrite Hs. reflexivity.
+    - cbn [nth_error] in Hn. destruct (IH x1 i e Hn) as (x' & o' & A & B). exists x', o'. split; assumption.
+  Qed.
+
+  (* only the second half of a request produces an [EvCompleted]; it says the executor was asked
+     and is not marked cached *)
+  Lemma xstep_completed_shape :
+    forall x o id q now rp, snd (xstep H K cf bc x o) = EvCompleted id q now rp ->
+      o = XEnd id now /\ r_exec_called rp = true /\ r_cached rp = false.
+  Proof.
+    intros [s pend] o id q now rp E.
+    destruct o as [a | id0 q0 | id0 now0]; cbn [xstep] in E.
+    - destruct (bstep_op H K cf bc s a) as [s1 e1]. discriminate E.
+    - destruct (enter K cf bc s (q_prompt q0) (q_time q0)) as [s1 r]. destruct r; discriminate E.
+    - destruct (pending_find id0 pend) as [q0|]; [|discriminate E].
+      destruct s as [c b]. unfold leave in E. cbn [snd] in E. inversion E; subst. auto.
+  Qed.
+
+  (* the reply of a request that was in flight - whatever happened on the loop object between
+     its two halves - is the gate's outcome on the prompt and the agents' answers of the begin
+     with that id, which stands earlier in the history *)
+  Lemma overlap_completed_is_own_gate_proof :
+    forall ops i id q now rp,
+      nth_error (xtrace H K cf bc ops) i = Some (EvCompleted id q now rp) ->
+      nth_error ops i = Some (XEnd id now) /\ In (XBegin id q) (firstn i ops) /\
+      r_cached rp = false /\ r_core rp = outcome H cf q /\ r_exec_called rp = true /\
+      r_assess_called rp = negb (raised (q_exec q)) /\ r_shown rp = Some (q_prompt q).
+  Proof.
+    intros ops i id q now rp Hn.
+    destruct (xtrace_from_nth_op ops _ i _ Hn) as (x' & o & Ho & He).
+    symmetry in He. destruct (xstep_completed_shape x' o id q now rp He) as (-> & Hx & Hc).
+    split; [exact Ho|].
+    destruct (xtrace_from_origin ops [] ([], brk0) [] (fun id q (F : In (id, q) []) => match F with end)
+                                 i _ q rp Hn eq_refl) as [J | [(id' & J) | (id' & now' & rp' & J1 & J2 & J3)]].
+    - rewrite Ho in J. discriminate J.
+    - rewrite Ho in J. discriminate J.
+    - inversion J1; subst id' now' rp'. cbn [app] in J3. split; [exact J3|].
+      destruct (overlap_justified_proof ops i _ q rp Hn eq_refl) as [[n E] | [F | [C _]]].
+      + rewrite E in Hx. discriminate Hx.
+      + exact F.
+      + congruence.
+  Qed.
+
+  (* ---- the conjuncts of the property, for overlapping histories ---- *)
+
+  Lemma overlap_pass_only_if_proof :
+    forall ops i e q rp,
+      nth_error (xtrace H K cf bc ops) i = Some e -> xreply e = Some (q, rp) ->
+      c_blocked (r_core rp) = false ->
+      exists j ej qj rj,
+        (j <= i)%nat /\ nth_error (xtrace H K cf bc ops) j = Some ej /\ xreply ej = Some (qj, rj) /\
+        K (q_prompt qj) = K (q_prompt q) /\ r_cached rj = false /\ (r_cached rp = false -> j = i) /\
+        r_core rp = outcome H cf qj /\
+        spec_pass (cf_logic cf) (q_exec qj) (q_assess qj) = true.
+  Proof.
+    intros ops i e q rp Hn Hr Hb.
+    destruct (overlap_justified_proof ops i e q rp Hn Hr)
+      as [[n E] | [F | [C (j & ej & qj & rj & tj & A1 & A2 & A3 & A4 & A5 & A6 & A7 & _)]]].
+    - rewrite E in Hb. discriminate Hb.
+    - destruct F as (F1 & F2 & _). exists i, e, q, rp.
+      split; [lia|]. split; [exact Hn|]. split; [exact Hr|]. split; [reflexivity|]. split; [exact F1|].
+      split; [reflexivity|]. split; [exact F2|].
+      apply pass_iff_proof. rewrite F2 in Hb. exact Hb.
+    - destruct A5 as (F1 & F2 & _). exists j, ej, qj, rj.
+      split; [lia|]. split; [exact A2|]. split; [exact A3|]. split; [exact A6|]. split; [exact F1|].
+      split; [intros E; congruence|]. split; [congruence|].
+      apply pass_iff_proof. rewrite A7, F2 in Hb. exact Hb.
+  Qed.
+
+  Definition xK_injective_on (ops : list xop) : Prop :=
+    forall a b, xreq_in ops a -> xreq_in ops b -> K (q_prompt a) = K (q_prompt b) -> q_prompt a = q_prompt b.
+
+  Lemma overlap_cache_same_verdict_proof :
+    forall ops, xK_injective_on ops ->
+    forall i e q rp,
+      nth_error (xtrace H K cf bc ops) i = Some e -> xreply e = Some (q, rp) -> r_cached rp = true ->
+      exists j ej qj rj tj,
+        (j < i)%nat /\ nth_error (xtrace H K cf bc ops) j = Some ej /\ xreply ej = Some (qj, rj) /\
+        xdone_at ej = Some tj /\ q_prompt qj = q_prompt q /\ r_cached rj = false /\
+        r_core rp = r_core rj /\ r_core rj = outcome H cf qj /\
+        q_time q - tj < cf_ttl cf /\ r_exec_called rp = false /\ r_assess_called rp = false.
+  Proof.
+    intros ops Hinj i e q rp Hn Hr Hc.
+    destruct (overlap_justified_proof ops i e q rp Hn Hr)
+      as [[n E] | [F | [_ (j & ej & qj & rj & tj & A1 & A2 & A3 & A4 & A5 & A6 & A7 & A8 & _ & A10 & A11 & _)]]].
+    - rewrite E in Hc. discriminate Hc.
+    - destruct F as (F1 & _). congruence.
+    - destruct A5 as (F1 & F2 & _). exists j, ej, qj, rj, tj.
+      split; [exact A1|]. split; [exact A2|]. split; [exact A3|]. split; [exact A4|].
+      split; [apply Hinj; [exact (xreply_req_in ops j ej qj rj A2 A3) | exact (xreply_req_in ops i e q rp Hn Hr) | exact A6]|].
+      auto 8.
+  Qed.
+
+  Lemma overlap_token_bound_proof :
+    forall ops, xK_injective_on ops ->
+    forall i e q rp t,
+      nth_error (xtrace H K cf bc ops) i = Some e -> xreply e = Some (q, rp) ->
+      c_token (r_core rp) = Some t ->
+      tk_hash t = H (q_prompt q) /\ tk_issuer t = cf_assessor cf /\ c_blocked (r_core rp) = false /\
+      exists j ej qj rj,
+        (j <= i)%nat /\ nth_error (xtrace H K cf bc ops) j = Some ej /\ xreply ej = Some (qj, rj) /\
+        q_prompt qj = q_prompt q /\ r_cached rj = false /\ q_assess qj = VPermit.
+  Proof.
+    intros ops Hinj i e q rp t Hn Hr Ht.
+    assert (Hb : c_blocked (r_core rp) = false).
+    { destruct (overlap_justified_proof ops i e q rp Hn Hr)
+        as [[n E] | [F | [_ (j & ej & qj & rj & tj & _ & _ & _ & _ & A5 & _ & A7 & _)]]].
+      - rewrite E in Ht. discriminate Ht.
+      - destruct F as (_ & F2 & _). rewrite F2 in Ht |- *.
+        destruct (token_iff_proof H cf q) as [T _]. destruct (T t Ht) as (_ & B & _). exact B.
+      - destruct A5 as (_ & F2 & _). rewrite A7, F2 in Ht |- *.
+        destruct (token_iff_proof H cf qj) as [T _]. destruct (T t Ht) as (_ & B & _). exact B. }
+    destruct (overlap_pass_only_if_proof ops i e q rp Hn Hr Hb)
+      as (j & ej & qj & rj & A1 & A2 & A3 & A4 & A5 & _ & A7 & _).
+    assert (Hp : q_prompt qj = q_prompt q)
+      by (apply Hinj; [exact (xreply_req_in ops j ej qj rj A2 A3) | exact (xreply_req_in ops i e q rp Hn Hr) | exact A4]).
+    rewrite A7 in Ht.
+    destruct (token_iff_proof H cf qj) as [T _]. destruct (T t Ht) as (B1 & _ & B3 & B4).
+    rewrite <- Hp. split; [exact B3|]. split; [exact B4|]. split; [exact Hb|].
+    exists j, ej, qj, rj. auto 8.
+  Qed.
+End OverlapProofs.
+
+(* two loop objects with overlapping requests on each do not influence each other *)
+Lemma xloops_isolated_from :
+  forall (H K : str -> str) cf0 cf1 bc0 bc1 tops a0 a1 b,
+    proj b (xsys_from H K cf0 cf1 bc0 bc1 a0 a1 tops) =
+    xtrace_from H K (if b then cf1 else cf0) (if b then bc1 else bc0) (if b then a1 else a0) (proj b tops).
+Proof.
+  intros H K cf0 cf1 bc0 bc1. unfold proj.
+  induction tops as [|[t o] rest IH]; intros a0 a1 b; [reflexivity|].
+  cbn [xsys_from]. destruct t.
+  - destruct (xstep H K cf1 bc1 a1 o) as [a1' e] eqn:Es.
+    cbn [filter fst]. destruct b; cbn [Bool.eqb map snd].
+    + cbn [xtrace_from]. rewrite Es. rewrite (IH a0 a1' true). reflexivity.
+    + rewrite (IH a0 a1' false). reflexivity.
+  - destruct (xstep H K cf0 bc0 a0 o) as [a0' e] eqn:Es.
+    cbn [filter fst]. destruct b; cbn [Bool.eqb map snd].
+    + rewrite (IH a0' a1 true). reflexivity.
+    + cbn [xtrace_from]. rewrite Es. rewrite (IH a0' a1 false). reflexivity.
+Qed.
+
+Lemma overlap_loops_isolated_proof :
+  forall (H K : str -> str) cf0 cf1 bc0 bc1 tops b,
+    proj b (xsys_trace H K cf0 cf1 bc0 bc1 tops) =
+    xtrace H K (if b then cf1 else cf0) (if b then bc1 else bc0) (proj b tops).
+Proof.
+  intros H K cf0 cf1 bc0 bc1 tops b. unfold xsys_trace, xtrace.
+  rewrite (xloops_isolated_from H K cf0 cf1 bc0 bc1 tops x0 x0 b). destruct b; reflexivity.
+Qed.
